@@ -12,7 +12,11 @@ import (
 // freshSlice: is the expression a slice no one else can hold (literal, make, append to a
 // fresh slice, or a local that was only ever assigned such values)?
 func (x *Exec) freshSlice(e ast.Expr, depth int) bool {
-	if depth > 4 {
+	return x.freshSliceV(e, depth, map[*types.Var]bool{})
+}
+
+func (x *Exec) freshSliceV(e ast.Expr, depth int, visiting map[*types.Var]bool) bool {
+	if depth > 6 {
 		return false
 	}
 	switch e := ast.Unparen(e).(type) {
@@ -25,7 +29,7 @@ func (x *Exec) freshSlice(e ast.Expr, depth int) bool {
 				case "make":
 					return true
 				case "append":
-					return x.freshSlice(e.Args[0], depth+1)
+					return x.freshSliceV(e.Args[0], depth+1, visiting)
 				}
 			}
 		}
@@ -39,12 +43,17 @@ func (x *Exec) freshSlice(e ast.Expr, depth int) bool {
 		if x.opts["slices"] == "owned" {
 			return true
 		}
+		if visiting[v] {
+			return true // s = append(s, ...) keeps a fresh slice fresh
+		}
 		rhs, ok := x.localAssigns[v]
 		if !ok || len(rhs) == 0 {
 			return false
 		}
+		visiting[v] = true
+		defer delete(visiting, v)
 		for _, r := range rhs {
-			if r == nil || !x.freshSlice(r, depth+1) {
+			if r == nil || !x.freshSliceV(r, depth+1, visiting) {
 				return false
 			}
 		}
